@@ -52,6 +52,7 @@ REPLY_LINE_VARIANTS = {
     "wrongkind_value": b"VALUE zzz 0 1\r\n",
     "wrongkind_number": b"12345\r\n",
     "empty": b"\r\n",
+    "long_server_error": b"SERVER_ERROR " + b"out of memory storing object " * 6 + b"\r\n",
 }
 
 
@@ -543,6 +544,10 @@ class FakeSocket:
 
     def close(self):
         k = self.net._step(T_CLOSE, self)
+        if k in BASE_EXC_KINDS:
+            # a signal / gevent timeout delivered on entry: the descriptor has not been closed yet
+            self.history.append(("close-interrupted", None, self.timeout, self.via_wrapper, self.net.ctx.call))
+            raise make_exc(k)
         self.history.append((T_CLOSE, None, self.timeout, self.via_wrapper, self.net.ctx.call))
         self.close_count += 1
         self.closed = True
